@@ -622,8 +622,9 @@ class Path(Expression):
             not RE_PROPERTY.fullmatch(root) or root in _RESERVED_WORDS
         ):
             buf = [f"[{quote_string(root)}]"]
-        elif isinstance(root, Path):
-            # The name of the root variable is itself the value of a variable.
+        elif isinstance(root, (Path, int)):
+            # The name of the root variable is itself the value of a variable, or
+            # an integer. Without brackets `[0]` would be the integer literal `0`.
             buf = [f"[{root}]"]
         else:
             buf = [str(root)]
